@@ -10,6 +10,7 @@ let parse_api (s : string) : api =
   | ["M"; d; r] -> AMove (zi d, zi r)
   | ["P"; h] -> let b = bytes_of_hex h in APrintn (b, z_of_int (List.length b))
   | ["p"; h] -> APrint (bytes_of_hex h)
+  | ["f"; h] -> APrintf (bytes_of_hex h)
   | ["n"; h; len] -> APrintn (bytes_of_hex h, zi len)
   | ["E"; n; me] -> AErasech (zi n, maybe_of me)
   | ["K"] -> AClear
@@ -22,7 +23,8 @@ let parse_api (s : string) : api =
 let parse_case toks =
   match toks with
   | lines :: cols :: slrm :: colon :: rgb :: ops ->
-    let caps = { cap_cursorshape = true; cap_slrm = (slrm <> "0"); cap_colon = (colon <> "0"); cap_rgb8 = (rgb <> "0") } in
+    (* the driver takes DECLRMM for available when the reply says set (1) or reset (2) *)
+    let caps = { cap_cursorshape = true; cap_slrm = (slrm = "1" || slrm = "2"); cap_colon = (colon <> "0"); cap_rgb8 = (rgb <> "0") } in
     let d = { x_caps = caps; x_mode = xdrv_new.x_mode; x_init = xdrv_new.x_init } in
     let t = { t_drv = d; t_started = true; t_pen = empty_pen; t_lines = zi lines; t_cols = zi cols } in
     (t, List.map parse_api ops)
@@ -50,7 +52,12 @@ let oracle walk line =
     (match split_ws o with
      | init :: obs when String.length init >= 2 && String.sub init 0 2 = "I:" && List.length obs = List.length calls ->
        let start = bytes_of_hex (String.sub init 2 (String.length init - 2)) in
-       let v0 = vt_freeze (with_pattern (vt_run_bytes start (vt_init t.t_lines t.t_cols))) in
+       let v0 = vt_run_bytes start (vt_init t.t_lines t.t_cols) in
+       (* a terminal that answers "not recognised" or "permanently reset" has ignored start()'s CSI ?69h:
+          it does not honour DECSLRM *)
+       let slrm = List.nth (split_ws c) 2 in
+       let v0 = if slrm = "0" || slrm = "4" then set_md v0 (md_set_lrmm v0.v_md false) else v0 in
+       let v0 = vt_freeze (with_pattern v0) in
        let pairs = List.combine calls obs in
        let parse_ob ob = (match split_on ':' ob with [r; h] -> (r <> "0", bytes_of_hex h) | _ -> failwith "obs") in
        (* quiet calls (flush, set_output_buffer) must write nothing and are not requests *)
